@@ -152,6 +152,34 @@ def build_base(n: int, prog: list) -> lw.Circuit:
     return c
 
 
+def extend_base(c: lw.Circuit, prog: list) -> None:
+    """apply the gates of `prog` IN PLACE to an existing base circuit with 2n visible modes (same
+    construction calls as build_base, which starts from an empty circuit); used by multi-step
+    histories that mutate a base circuit a tomography object was already built on"""
+    for g in prog:
+        name = g[0]
+        if name == "U":
+            c.add(lw.Unitary(q2mat(g[2])), 2 * g[1])
+        elif name in NAMED:
+            c.add(NAMED[name](), 2 * g[1])
+        elif name == "CZ":
+            gate = qubit.CZ() if g[3]["impl"] == "ps" else qubit.CZ_Heralded()
+            c.add(gate, 2 * min(g[1], g[2]))
+        elif name == "CNOT":
+            tq = 1 if g[2] > g[1] else 0
+            gate = qubit.CNOT(tq) if g[3]["impl"] == "ps" else qubit.CNOT_Heralded(tq)
+            c.add(gate, 2 * min(g[1], g[2]))
+        elif name == "SWAP":
+            q1, q2 = g[1], g[2]
+            c.add(qubit.SWAP((2 * q1, 2 * q1 + 1), (2 * q2, 2 * q2 + 1)), 0)
+        elif name == "MODEU":
+            c.add(lw.Unitary(cg.mat_np([[cg.GQ.parse(x) for x in r] for r in g[1]])), 0)
+        elif name == "PRIM":
+            cg.apply_op({"c": c}, g[1])
+        else:
+            raise AssertionError(f"unknown gate {name}")
+
+
 def model_prog(prog: list, in_bits: list[int]) -> list:
     """program for the model: the experiment's input state as X gates, then the gates"""
     return [["X", q] for q, b in enumerate(in_bits) if b] + [g for g in prog]
